@@ -75,6 +75,10 @@ def run_trace(tid, events):
                     d.free()
         except ValueError:
             err = True
+        except Exception as e:  # noqa  - nothing else is specified to raise
+            steps.append({"in": {"e": "raised"}, "out": {"t": 0, "n": 0, "alarm": -1, "err": True,
+                                                           "msg": "%s: %s at %s" % (type(e).__name__, e, ev)}})
+            break
         nxt = hs.getNextNotifierTimeout()
         steps.append({"in": ev, "out": {
             "t": wpilib.RobotController.getFPGATime() - base,
